@@ -54,15 +54,20 @@ def _seg_intersect(p1, p2, p3, p4):
             or (d3 == 0 and _on_seg(p1, p2, p3)) or (d4 == 0 and _on_seg(p1, p2, p4)))
 
 
-def is_simple(pts):
-    """exact test (Fractions): no two non-adjacent edges meet, adjacent edges are not collinear"""
+def is_simple(pts, allow_collinear=False):
+    """exact test (Fractions): no two non-adjacent edges meet; adjacent edges are not collinear, or
+    (allow_collinear) a collinear vertex lies strictly between its neighbours (no spikes)"""
     P = [(frac(x), frac(y)) for x, y in pts]
     n = len(P)
     if n < 3 or len(set(P)) != n:
         return False
     for i in range(n):
-        if _orient(P[i - 1], P[i], P[(i + 1) % n]) == 0:
-            return False
+        a, b, c = P[i - 1], P[i], P[(i + 1) % n]
+        if _orient(a, b, c) == 0:
+            if not allow_collinear:
+                return False
+            if (b[0] - a[0]) * (c[0] - b[0]) + (b[1] - a[1]) * (c[1] - b[1]) <= 0:
+                return False
     for i in range(n):
         for j in range(i + 1, n):
             if j == i + 1 or (i == 0 and j == n - 1):
@@ -135,6 +140,66 @@ def gen_polygon(rng, cls, exact):
                 if exact:
                     x, y = round(x * 256) / 256, round(y * 256) / 256
                 pts.append((x, y))
+        elif cls == "quad":
+            # quadrilaterals that look like rectangles to shortcuts (4 vertices, equal diagonals and/or an
+            # axis-aligned edge) without being axis-aligned rectangles
+            def q(lo, hi):
+                return dyadic(rng, lo, hi, 4) if exact else rng.uniform(lo, hi)
+            w, h = size * q(1, 4), size * q(0.5, 3)
+            t = rng.choice(["trap_h", "trap_v", "kite", "rot_rect", "diamond", "parallelogram", "eqdiag_h", "eqdiag_v",
+                            "near_rect", "trap_h", "trap_v", "eqdiag_h", "eqdiag_v"])
+            if t in ("trap_h", "trap_v"):
+                d = w * rng.choice([0.125, 0.25, 0.375])
+                pts = [(0, 0), (w, 0), (w - d, h), (d, h)]
+                if rng.random() < 0.5:
+                    pts = [(d, 0), (w - d, 0), (w, h), (0, h)]
+            elif t == "kite":
+                a = w * rng.choice([0.25, 0.5, 0.75])
+                pts = [(0, h), (a, 0), (w, h), (a, 2 * h)]
+            elif t == "rot_rect":
+                m, n2 = size * rng.choice([0.25, 0.5, 1.0]), size * rng.choice([0.125, 0.25, 0.5])
+                u, v2 = (4 * m, 3 * m), (-3 * n2, 4 * n2)
+                pts = [(3 * n2, 0), (3 * n2 + u[0], u[1]), (3 * n2 + u[0] + v2[0], u[1] + v2[1]), (3 * n2 + v2[0], v2[1])]
+            elif t == "diamond":
+                pts = [(w / 2, 0), (w, w / 2), (w / 2, w), (0, w / 2)]
+            elif t == "parallelogram":
+                sh = w * rng.choice([0.125, 0.25, 0.5])
+                pts = [(0, 0), (w, 0), (w + sh, h), (sh, h)]
+            elif t in ("eqdiag_h", "eqdiag_v"):
+                # diagonals (a, b) and (-b, a): equal length, first edge axis-aligned
+                a, b = size * q(1, 4), size * q(0.5, 3)
+                ww = size * q(1, 4)
+                pts = [(0, 0), (ww, 0), (a, b), (ww - b, a)]
+            else:
+                dx, dy = w * rng.choice([-0.25, 0.125, 0.25]), h * rng.choice([-0.25, 0.125, 0.25])
+                pts = [(0, 0), (w, 0), (w + dx, h + dy), (0, h)]
+            if t in ("trap_v", "eqdiag_v") or (t in ("parallelogram", "near_rect") and rng.random() < 0.5):
+                pts = [(y, x) for x, y in pts]
+            xm = min(x for x, _ in pts)
+            pts = [(r0 + x - xm, z0 + y) for x, y in pts]
+        elif cls == "axis":
+            # rectilinear outlines and polygons with collinear vertices (extra vertices on straight edges)
+            w, h = size * num(0.5, 1), size * num(0.5, 1)
+            t = rng.choice(["rect_mid", "stairs", "L_mid", "tri_mid", "trap_mid"])
+            if t == "rect_mid":
+                pts = [(0, 0), (w, 0), (w, h), (0, h)]
+            elif t == "stairs":
+                pts = [(0, 0), (w, 0), (w, h / 4), (3 * w / 4, h / 4), (3 * w / 4, h / 2), (w / 2, h / 2), (w / 2, h), (0, h)]
+            elif t == "L_mid":
+                pts = [(0, 0), (w, 0), (w, h / 2), (w / 2, h / 2), (w / 2, h), (0, h)]
+            elif t == "tri_mid":
+                pts = [(0, 0), (w, 0), (w / 2, h)]
+            else:
+                pts = [(0, 0), (w, 0), (3 * w / 4, h), (w / 4, h)]
+            mids = set(rng.sample(range(len(pts)), rng.randint(1, min(len(pts), 12 - len(pts)))))
+            out = []
+            for i, a in enumerate(pts):
+                b = pts[(i + 1) % len(pts)]
+                out.append(a)
+                if i in mids:
+                    f = rng.choice([0.25, 0.5, 0.75])
+                    out.append((a[0] + f * (b[0] - a[0]), a[1] + f * (b[1] - a[1])))
+            pts = [(r0 + x, z0 + y) for x, y in out]
         else:   # templates: L, arrow, notch, comb
             w, h = size * num(0.5, 1), size * num(0.5, 1)
             a, b = w * rng.choice([0.25, 0.5, 0.75]), h * rng.choice([0.25, 0.5, 0.75])
@@ -151,7 +216,7 @@ def gen_polygon(rng, cls, exact):
         pts = [(float(x), float(y)) for x, y in pts]
         if min(x for x, _ in pts) < 0:
             continue
-        if not is_simple(pts):
+        if not is_simple(pts, allow_collinear=(cls == "axis")):
             continue
         area, _, _ = exact_reference(pts)
         if area < F(1, 4096):
@@ -161,6 +226,20 @@ def gen_polygon(rng, cls, exact):
         k = rng.randrange(len(pts))
         return pts[k:] + pts[:k]
     raise RuntimeError("generator could not produce a simple polygon of class " + cls)
+
+
+def rectangle_like(stored):
+    """the test of AxisymmetricVoxel._has_rectangular_cross_section (4 vertices, equal diagonals as doubles,
+    edge 1-2 axis-aligned) and whether the polygon really is an axis-aligned rectangle"""
+    if len(stored) != 4:
+        return False, False
+    (x1, y1), (x2, y2), (x3, y3), (x4, y4) = stored
+    d13 = math.sqrt((x1 - x3) ** 2 + (y1 - y3) ** 2)
+    d24 = math.sqrt((x2 - x4) ** 2 + (y2 - y4) ** 2)
+    passes = d13 == d24 and not ((x2 - x1) != 0 and (y2 - y1) != 0)
+    xs, ys = sorted({x1, x2, x3, x4}), sorted({y1, y2, y3, y4})
+    is_rect = len(xs) == 2 and len(ys) == 2 and all((x, y) in stored for x in xs for y in ys)
+    return passes, is_rect
 
 
 def variants(pts):
@@ -287,12 +366,11 @@ def search_geometry(impl, pts, all_variants):
         for name, got, want, tol in (("area", g["area"], area, ta), ("centroid.x", g["cx"], cx, tx),
                                      ("centroid.y", g["cy"], cy, ty), ("volume", g["volume"], vol, tv)):
             if not abs(frac(got) - want) <= tol:
-                fails.append({"claim": "%s equals the exact value for this vertex order" % name, "polygon": var,
-                              "got": got, "want": float(want), "tolerance": float(tol)})
+                if not fails:
+                    fails.append({"claim": "%s equals the exact value for this vertex order" % name, "polygon": var,
+                                  "got": got, "want": float(want), "tolerance": float(tol)})
                 break
-        if fails:
-            break
-    if not fails and all_variants:
+    if all_variants:
         for name in ("area", "cx", "cy", "volume"):
             vals = [g[name] for g in outs]
             tol = {"area": ta, "cx": tx, "cy": ty, "volume": tv}[name]
@@ -436,7 +514,7 @@ def run(ctx):
     quick = ctx.quick
 
     # ---- polygons -------------------------------------------------------------------------------
-    classes = ["triangle", "rectangle", "convex", "star", "star", "template"]
+    classes = ["triangle", "rectangle", "quad", "convex", "star", "quad", "axis", "star", "template"]
     n_base = 132 if quick else 3000
     n_allvar = 8 if quick else 150
     n_emis = 72 if quick else 1500
@@ -452,7 +530,8 @@ def run(ctx):
 
     cases, meta = [], []
     dist = {"class": {}, "n_vertices": {}, "orientation_given": {"clockwise": 0, "anticlockwise": 0},
-            "dyadic": 0, "full_double": 0, "touching_axis": 0, "concave": 0}
+            "dyadic": 0, "full_double": 0, "touching_axis": 0, "concave": 0, "collinear_vertices": 0,
+            "four_vertex_non_rectangles": 0, "pass_rectangle_helper_but_not_rectangles(some rotation)": 0}
 
     impl_errors = []
 
@@ -479,8 +558,14 @@ def run(ctx):
         n = len(pts)
         P = [tuple(map(frac, q)) for q in g["stored"]]
         dist["concave"] += int(any(_orient(P[i - 1], P[i], P[(i + 1) % n]) > 0 for i in range(n)))
+        dist["collinear_vertices"] += int(any(_orient(P[i - 1], P[i], P[(i + 1) % n]) == 0 for i in range(n)))
+        if n == 4:
+            rl = [rectangle_like(g["stored"][k:] + g["stored"][:k]) for k in range(4)]
+            dist["four_vertex_non_rectangles"] += int(not rl[0][1])
+            dist["pass_rectangle_helper_but_not_rectangles(some rotation)"] += int(any(a and not b for a, b in rl))
     # every rotation and both orientations of a few polygons, through Coq as well
-    allvar = [p for p in polys if p[0] in ("star", "template", "convex")][:n_allvar]
+    quads = [p for p in polys if p[0] == "quad"]
+    allvar = quads[:n_allvar // 2] + [p for p in polys if p[0] in ("axis", "star", "template", "convex")][:n_allvar - n_allvar // 2]
     for cls, exact, pts in allvar:
         for var in variants(pts)[1:]:
             add_geom(cls, exact, var, "variant")
@@ -536,9 +621,15 @@ def run(ctx):
     grid_sizes = []
     grid_fails = []
     exact_polys = [p[2] for p in polys if p[1]]
+    exact_quads = [p[2] for p in polys if p[1] and p[0] == "quad"]
     for gi in range(n_grids):
         size = [0, 1, 2, 7, 25, 60, 3, 12][gi % 8] if quick else rng.choice([0, 1, 2, 5, 20, 100, 300])
-        gp = [exact_polys[rng.randrange(len(exact_polys))] for _ in range(size)]
+        gp = []
+        for _ in range(size):
+            cell = exact_polys[rng.randrange(len(exact_polys))] if rng.random() < 0.6 or not exact_quads \
+                else exact_quads[rng.randrange(len(exact_quads))]
+            vs = variants(cell)
+            gp.append(vs[rng.randrange(len(vs))])
         tot, gf = search_grid(impl, gp)
         grid_fails += gf
         grid_sizes.append(size)
@@ -585,11 +676,12 @@ def run(ctx):
         search_fails += search_geometry(impl, pts, True)
         n_search_geom += 1
     for k, (cls, exact, pts) in enumerate(polys):
-        search_fails += search_geometry(impl, pts, id(pts) in allvar_set or k % (5 if quick else 10) == 0)
+        search_fails += search_geometry(impl, pts, len(pts) == 4 or id(pts) in allvar_set
+                                        or k % (5 if quick else 10) == 0)
         n_search_geom += 1
         if len(search_fails) > 20:
             break
-    stat_pool = seeds[:5] + [p[2] for p in polys if p[0] in ("star", "template", "convex", "triangle")][:n_stat]
+    stat_pool = seeds[:5] + [p[2] for p in polys if p[0] in ("star", "quad", "template", "axis", "convex", "triangle")][:n_stat]
     n_search_stat = 0
     for pts in stat_pool:
         search_fails += search_sampling(impl, pts, rng, 4000 if quick else 20000)
